@@ -22,8 +22,8 @@ const (
 	Hour        = time.Hour
 )
 
-func Now() Time                      { return vfs.FS.Now }
-func Unix(sec, nsec int64) Time      { return time.Unix(sec, nsec) }
-func Since(t Time) Duration          { return vfs.FS.Now.Sub(t) }
-func Sleep(d Duration)               { vfs.FS.Now = vfs.FS.Now.Add(d) }
-func Duration_(n int64) Duration     { return Duration(n) }
+func Now() Time                  { return vfs.FS.Now }
+func Unix(sec, nsec int64) Time  { return time.Unix(sec, nsec) }
+func Since(t Time) Duration      { return vfs.FS.Now.Sub(t) }
+func Sleep(d Duration)           { vfs.FS.Now = vfs.FS.Now.Add(d) }
+func Duration_(n int64) Duration { return Duration(n) }
